@@ -13,6 +13,7 @@ func runC15(c *Ctx) {
 	c15FileReplica(c)
 	c15TargetBounds(c)
 	c15Siblings(c)
+	c15MetadataBeforeBody(c, "R5-sibling-writers-read-header-timestamp")
 	c15HeaderTimestamp(c)
 	// R4: T before the first backup fails: the plan must be non-empty (C08-R4 success condition)
 	plan := c.fnOpt("ls.CalcRestorePlan")
@@ -213,4 +214,66 @@ func c15HeaderTimestamp(c *Ctx) {
 		}
 	}
 	c.floor(rule, n, 2, "LTX headers written by litestream")
+}
+
+// c15MetadataBeforeBody: a backend that stores the replication timestamp as
+// object metadata on a streaming writer must set it before the first byte of
+// the body is written (the GCS writer sends its attributes with the first
+// chunk; later assignments are silently ignored, the listing then falls back
+// to the upload time and a compacted file no longer carries its newest
+// input's timestamp).
+func c15MetadataBeforeBody(c *Ctx, rule string) {
+	n := 0
+	for _, fn := range c.P.ProdFuncs() {
+		if fn.Name() != "WriteLTXFile" || fn.Signature.Recv() == nil || fn.Parent() != nil {
+			continue
+		}
+		for _, b := range fn.Blocks {
+			for _, in := range b.Instrs {
+				st, ok := in.(*ssa.Store)
+				if !ok {
+					continue
+				}
+				fa, ok := st.Addr.(*ssa.FieldAddr)
+				if !ok || !strings.HasSuffix(fieldAddrName(fa), ".Metadata") {
+					continue
+				}
+				// root object of the field chain
+				root := fa.X
+				for {
+					if f2, ok := root.(*ssa.FieldAddr); ok {
+						root = f2.X
+						continue
+					}
+					break
+				}
+				// body writes through the same object
+				for _, call := range calls(fn) {
+					if _, isCall := call.(*ssa.Call); !isCall {
+						continue
+					}
+					isBody := false
+					switch calleeName(call) {
+					case "io.Copy", "io.CopyN", "io.CopyBuffer":
+						for _, o := range origins(call.Common().Args[0]) {
+							if o == root || sameValue(o, root) {
+								isBody = true
+							}
+						}
+					default:
+						if rv := recvOf(call); rv != nil && (rv == root || sameValue(rv, root)) && (methodName(call) == "Write" || methodName(call) == "ReadFrom") {
+							isBody = true
+						}
+					}
+					if !isBody {
+						continue
+					}
+					n++
+					c.check(dominates(st, call), rule, fnName(fn)+": object metadata (replication timestamp) is set before the body is written", c.pos(st), "assignment dominates the first body write",
+						"the metadata is assigned after data was written to the streaming writer: it is not stored, listings report the upload time instead of the LTX header timestamp")
+				}
+			}
+		}
+	}
+	c.floor(rule, n, 1, "streaming writers carrying timestamp metadata")
 }
